@@ -117,6 +117,93 @@ def value_path(ctx: Ctx) -> None:
                    not any(v["signature"].split("[")[0] in ("result-differs", "exception-differs", "success-without-result", "failed-returned-value", "value-before-final") for v in ctx.violations), "see violations")
 
 
+def fault_and_alias(ctx: Ctx) -> None:
+    """(a) a storage fault while the outcome is being stored must not publish a final status without its outcome;
+    (b) a body that mutates a large argument in place and returns it / returns one growing object twice: a reader in ANOTHER
+    process image (a second app object on the same SQLite file, with its own caches) must read what the body returned"""
+    from pynenc.app import Pynenc
+    from pynenc.invocation.status import InvocationStatus as S
+
+    sers = ["JsonSerializer", "PickleSerializer", "JsonPickleSerializer"]
+    for kind in ("mem", "sqlite"):
+        for ser in sers:
+            app = make_app(kind, ctx.tmp, app_id=f"c05f{kind}{ser}", serializer_cls=ser, min_size_to_cache=64)
+            raiser = app.task(T.c05_raise, max_retries=0)
+            echo = app.task(T.c05_echo)
+            c = rctx("rF")
+            sb = app.state_backend
+            for what, attr, mk in (("exception", "_set_exception", lambda: raiser("ValueError", ["bad value", 2])),
+                                   ("result", "_set_result", lambda: echo({"v": "r" * 100}))):
+                inv = mk()
+                inject_status(app, inv.invocation_id, S.PENDING, "rF", 0)
+                orig = getattr(sb, attr)
+                state = {"n": 0}
+
+                def flaky(*a, _orig=orig, _st=state, **k):
+                    _st["n"] += 1
+                    if _st["n"] == 1:
+                        raise OSError("injected storage fault")
+                    return _orig(*a, **k)
+
+                setattr(sb, attr, flaky)
+                try:
+                    app.state_backend.get_invocation(inv.invocation_id).run(c)
+                except BaseException:  # noqa: BLE001
+                    pass
+                finally:
+                    setattr(sb, attr, orig)
+                ctx.count()
+                st = inv.status
+                ctx.distinct((kind, ser, "store-fault", what, st.value))
+                if st.is_final():
+                    try:
+                        got = inv.get_final_result()
+                        ok = st == S.SUCCESS
+                    except KeyError as e:
+                        ok = False
+                        got = e
+                    except BaseException as e:  # noqa: BLE001
+                        ok = st == S.FAILED and not isinstance(e, KeyError)
+                        got = e
+                    if not ok:
+                        ctx.report(f"final-without-outcome-after-store-fault[{kind}]:{what}",
+                                   f"[{kind}/{ser}] storing the {what} failed once (storage fault) and the invocation was published {st.value}; asking for the result gives {type(got).__name__}: {str(got)[:80]}",
+                                   {"backend": kind, "serializer": ser, "fault": attr})
+            flush(app)
+    # (b) second process image on the same SQLite file
+    for ser in sers:
+        db = f"{ctx.tmp}/c05alias{ser}.db"
+        worker_app = make_app("sqlite", ctx.tmp, app_id=f"c05a{ser}", db=db, serializer_cls=ser, min_size_to_cache=64)
+        mut = worker_app.task(T.c05_mutate)
+        grow = worker_app.task(T.c05_growing)
+        T.C05_GROWING.clear()
+        c = rctx("rA")
+        rows = [ctx.rng.randint(0, 10**6) for _ in range(120)]
+        expect_mut = sorted(rows) + [len(rows)]
+        jobs = [(mut(list(rows)), expect_mut)]
+        g1 = grow(60)
+        jobs.append((g1, list(range(60))))
+        for inv, _ in jobs:
+            inject_status(worker_app, inv.invocation_id, S.PENDING, "rA", 0)
+            worker_app.state_backend.get_invocation(inv.invocation_id).run(c)
+        g2 = grow(41)
+        inject_status(worker_app, g2.invocation_id, S.PENDING, "rA", 0)
+        worker_app.state_backend.get_invocation(g2.invocation_id).run(c)
+        jobs.append((g2, list(range(101))))
+        flush(worker_app)
+        Pynenc._clear_instances()
+        reader_app = make_app("sqlite", ctx.tmp, app_id=f"c05a{ser}", db=db, serializer_cls=ser, min_size_to_cache=64)
+        reader_app.task(T.c05_mutate), reader_app.task(T.c05_growing)
+        for inv, want in jobs:
+            got = reader_app.state_backend.get_result(inv.invocation_id)
+            ctx.count()
+            ctx.distinct(("sqlite", ser, "second-image", len(want)))
+            if got != want:
+                ctx.report(f"result-differs-in-second-process:{ser}",
+                           f"[sqlite/{ser}] status SUCCESS but a reader with its own caches reads {len(got) if hasattr(got, '__len__') else got!r} entries / different content; the body returned {len(want)} entries (in-place mutation / reused object)",
+                           {"serializer": ser, "got_head": repr(got)[:80], "want_head": repr(want)[:80]})
+
+
 def scheduled(ctx: Ctx, kind: str) -> None:
     from pynenc.exceptions import InvocationError
     from pynenc.invocation.status import InvocationStatus as S
@@ -211,6 +298,7 @@ def run(ctx: Ctx) -> None:
     ctx.cov["rule"] = ("value path: (backend, serializer, threshold, value-type/size class) and (backend, serializer, exception) cases; schedules: "
                        "reader vs worker enumerated depth-first with a pre-emption bound per (backend, outcome); distinct = distinct cases / schedules")
     value_path(ctx)
+    fault_and_alias(ctx)
     for kind in ("mem", "sqlite"):
         scheduled(ctx, kind)
     ctx.sample({"effect_programs": {k: v for k, v in trp.extract(ctx.tmp).items() if k.startswith("run")}})
